@@ -35,7 +35,16 @@ RULE = (
     "the same typed value, and after a rejected one the view is unchanged.  Every history runs next to 1-3 bystander records (same "
     "descriptor; another descriptor with the same field types) holding ordinary values (False / True / 0 / '' / [] / small ints): their "
     "deep observation, packed bytes and repr, taken when they were built, are compared after EVERY operation on the focus record.  "
-    "'inputtypes' cases offer unusual but plausible input types (bytearray, memoryviews incl. sliced / released, array.array, str / bytes / float "
+    "'groupoverlap' cases build grouped records of 2-4 members that share a field name with different types (every ordered pair of 18 type "
+    "families; the shared name first / middle / last; a second shared name; the reserved names, which all members have): after construction, "
+    "assignment through the group, _replace and a stream / JSON round trip every flat field's value must be of the type the flat descriptor "
+    "declares.  The pools of every text-parsing type hold Unicode look-alikes of well-formed text (digits of six other scripts, superscript / "
+    "circled / Roman numerals, full-width punctuation and hex letters, eight invisible characters, seven kinds of surrounding blanks, sign / "
+    "underscore separators, radix prefixes, leading zeros); the stdlib parser of this Python (ipaddress, bytes.fromhex) decides 'malformed' for "
+    "addresses, networks and digests (must be rejected), for the other types only the invariants apply.  Thorough tier only: 'pairs' cases "
+    "enumerate EVERY ordered pair of candidates of a type's pool as a two-operation history for eight operation pairs; hist cases use 1-6 fields "
+    "and 1-40 operations; cold children make every serialiser the first action of a fresh interpreter for every field type; seven locale "
+    "environments.  'inputtypes' cases offer unusual but plausible input types (bytearray, memoryviews incl. sliced / released, array.array, str / bytes / float "
     "subclasses, IntEnum, Decimal / Fraction, pathlib / ipaddress / uuid objects, date / time, os.PathLike; tuple / generator / set / frozenset / "
     "dict views / deque / map for T[] fields) to every field type: accepted => typed, serialisable by stream and JSON, hashable, and decoupled "
     "from the caller's object (the input buffer is modified / released afterwards and the record re-observed incl. its packed bytes).  'cold' "
@@ -85,7 +94,7 @@ ASSUMPTIONS = [
     "the instance, the call fails whatever the value); such records are built through recordType(**kwargs) and positional arguments",
 ]
 SHARDS = {"quick": 8, "thorough": 16}
-BUDGET_S = {"quick": 150, "thorough": 900}
+BUDGET_S = {"quick": 150, "thorough": 1800}
 
 ANCHORS = [
     "flow.record.base:Record.__setattr__",
@@ -120,10 +129,19 @@ KEY_SHADOW = "field-name-shadows-template-global"
 HISTORY_TYPES = ["net.ipaddress", "net.IPAddress", "net.ipaddress[]", "net.ipnetwork", "net.IPNetwork", "net.ipnetwork[]", "net.ipv4.Address", "bytes", "bytes[]",
                  "boolean", "boolean[]"]
 KEY_HISTORY = "acceptance-depends-on-history"
+OVERLAP_FAMILIES = ["string", "varint", "uint16", "boolean", "float", "bytes", "datetime", "digest", "net.ipaddress", "net.ipnetwork", "path", "command", "uri", "string[]",
+                    "varint[]", "stringlist", "dictlist", "dynamic"]
+KEY_GROUP_FLAT = "grouped-flat-field-type-disagrees-with-value"
+PAIR_OPS = (("assign", "assign"), ("ctor_kwargs", "assign"), ("assign", "replace"), ("group_assign", "from_dict"), ("replace", "group_assign"), ("from_dict", "ctor_args"),
+            ("from_record", "assign"), ("ctor_args", "from_record"))
 KEY_BYSTANDER = "operation-changes-another-record"
 KEY_BOOL_FRACTION = "boolean-accepts-fractional-value"
 KEY_LOCALE = "bytes-to-text-depends-on-locale"
-LOCALE_ENVS = [("C locale, UTF-8 mode off", {"LC_ALL": "C", "LANG": "C", "PYTHONUTF8": "0", "PYTHONCOERCECLOCALE": "0"}), ("default environment", None)]
+LOCALE_ENVS = [("C locale, UTF-8 mode off", {"LC_ALL": "C", "LANG": "C", "PYTHONUTF8": "0", "PYTHONCOERCECLOCALE": "0"}), ("default environment", None),
+               # thorough tier only:
+               ("POSIX locale, UTF-8 mode forced on", {"LC_ALL": "POSIX", "PYTHONUTF8": "1"}), ("LANG=C only, coercion off", {"LANG": "C", "PYTHONUTF8": "0", "PYTHONCOERCECLOCALE": "0"}),
+               ("C locale with coercion allowed", {"LC_ALL": "C"}), ("PYTHONIOENCODING=latin-1", {"PYTHONIOENCODING": "latin-1"}),
+               ("LC_CTYPE=C, UTF-8 mode off", {"LC_CTYPE": "C", "PYTHONUTF8": "0", "PYTHONCOERCECLOCALE": "0"})]
 WORKER_TIMEOUT_S = 120
 BY_STAMP = _dt.datetime(2021, 1, 2, 3, 4, 5, 6, tzinfo=_dt.timezone.utc)
 KEY_DT_REPLACE = "datetime-replace-tzinfo-none-stored-naive"
@@ -161,30 +179,58 @@ def ops_for(ftype):
 
 def generate(ctx):
     idx = 0
-    for e in range(len(LOCALE_ENVS)):
+    for e in range(ctx.scale(2, len(LOCALE_ENVS))):
         if ctx.mine(idx + 5):
             yield {"k": "locale", "env": e}
         idx += 1
-    for rep in range(ctx.scale(1, 4)):
+    # cold children: quick = one per field type with a seeded order of the serialisers; thorough = every serialiser is the FIRST thing
+    # the fresh interpreter does, for every field type (9 rotations of the order)
+    for rot in range(ctx.scale(1, 9)):
         for t in cands.TYPES:
             if ctx.mine(idx):
-                yield {"k": "cold", "t": t, "s": subseed("c05", ctx.seed, "cold", t, rep)}
+                c = {"k": "cold", "t": t, "s": subseed("c05", ctx.seed, "cold", t, rot)}
+                if not ctx.quick:
+                    c["rot"] = rot
+                yield c
             idx += 1
-    for rep in range(ctx.scale(2, 16)):
+    for rep in range(ctx.scale(2, 12)):
         for t in INPUT_TYPES:
             if ctx.mine(idx):
-                yield {"k": "inputtypes", "t": t, "s": subseed("c05", ctx.seed, "inputtypes", t, rep)}
+                c = {"k": "inputtypes", "t": t, "s": subseed("c05", ctx.seed, "inputtypes", t, rep)}
+                if not ctx.quick:
+                    c["allops"] = True  # every unusual input through every operation kind
+                yield c
             idx += 1
-    for rep in range(ctx.scale(2, 20)):
+    # grouped records whose members share a field name with DIFFERENT types: every ordered pair of type families; quick samples the
+    # position of the shared name, thorough enumerates first / middle / last
+    fams = OVERLAP_FAMILIES
+    k = 0
+    for t1 in fams:
+        for t2 in fams:
+            if t1 == t2:
+                continue
+            for pos in ((k % 3,) if ctx.quick else (0, 1, 2)):
+                if ctx.mine(idx):
+                    yield {"k": "groupoverlap", "t1": t1, "t2": t2, "pos": pos, "s": subseed("c05", ctx.seed, "groupoverlap", t1, t2, pos)}
+                idx += 1
+            k += 1
+    if not ctx.quick:
+        # exhaustive histories of length two: every ordered pair of candidates of a type's pool, for four operation pairs
+        for t in cands.TYPES:
+            for ops in PAIR_OPS:
+                if ctx.mine(idx):
+                    yield {"k": "pairs", "t": t, "ops": list(ops), "s": subseed("c05", ctx.seed, "pairs", t, ops)}
+                idx += 1
+    for rep in range(ctx.scale(2, 40)):
         for route in DT_ROUTES:
             if ctx.mine(idx):
                 yield {"k": "dtroute", "route": route, "s": subseed("c05", ctx.seed, "dtroute", route, rep)}
             idx += 1
-    for rep in range(ctx.scale(16, 160)):
+    for rep in range(ctx.scale(16, 480)):
         if ctx.mine(idx):
             yield {"k": "jsonfloat", "s": subseed("c05", ctx.seed, "jsonfloat", rep)}
         idx += 1
-    for rep in range(ctx.scale(3, 30)):
+    for rep in range(ctx.scale(3, 60)):
         for kind in DECODE_KINDS:
             if ctx.mine(idx):
                 yield {"k": "decode", "what": kind, "s": subseed("c05", ctx.seed, "decode", kind, rep)}
@@ -196,26 +242,32 @@ def generate(ctx):
             if ctx.mine(idx):
                 yield {"k": "shadow", "name": name, "t": t}
             idx += 1
-    for rep in range(ctx.scale(4, 40)):
+    for rep in range(ctx.scale(4, 60)):
         for t in ALIAS_TYPES:
             if ctx.mine(idx):
-                yield {"k": "alias", "t": t, "s": subseed("c05", ctx.seed, "alias", t, rep)}
+                c = {"k": "alias", "t": t, "s": subseed("c05", ctx.seed, "alias", t, rep)}
+                if not ctx.quick:
+                    c["deep"] = True  # up to 10 in-place fills, up to 6 records
+                yield c
             idx += 1
-    for rep in range(ctx.scale(6, 60)):
+    for rep in range(ctx.scale(6, 150)):
         for t in HISTORY_TYPES:
             if ctx.mine(idx):
                 yield {"k": "history", "t": t, "s": subseed("c05", ctx.seed, "history", t, rep)}
             idx += 1
-    for rep in range(ctx.scale(2, 12)):
+    for rep in range(ctx.scale(2, 16)):
         for t in cands.TYPES:
             for op in ops_for(t):
                 if ctx.mine(idx):
                     yield {"k": "sweep", "t": t, "op": op, "s": subseed("c05", ctx.seed, "sweep", t, op, rep)}
                 idx += 1
-    for rep in range(ctx.scale(120, 3000)):
+    for rep in range(ctx.scale(120, 4800)):
         for t in cands.TYPES:
             if ctx.mine(idx):
-                yield {"k": "hist", "t": t, "s": subseed("c05", ctx.seed, "hist", t, rep)}
+                c = {"k": "hist", "t": t, "s": subseed("c05", ctx.seed, "hist", t, rep)}
+                if not ctx.quick:
+                    c["deep"] = True  # up to 6 fields, up to 40 operations
+                yield c
             idx += 1
 
 
@@ -864,12 +916,152 @@ def run_sweep(ctx, case):
     ctx.sample({"case": case, "descriptor": [h.desc.name, h.fields], "operations": h.log[:6] + ["... %d in total" % len(h.log)]}, kind="sweep:" + op)
 
 
+def flat_view_typed(ctx, g, where, info):
+    """every field of the grouped record's flat descriptor: the value the group shows is unset or of the type the flat descriptor
+    declares for that name (list elements included); attribute access and _asdict() agree.  -> True when fine"""
+    ok = True
+    try:
+        declared = {f.name: f.type for f in g._desc.get_all_fields().values()}
+        as_dict = g._asdict()
+    except Exception as e:  # noqa: BLE001
+        ctx.violation(KEY_GROUP_FLAT, "the flat view of a grouped record cannot be read (%s)" % where, detail=dict(info, exception=repr(e)[:300]))
+        return False
+    for name, t in declared.items():
+        if name in vars(g):  # hidden by an attribute of the group object itself (name, records, ...)
+            continue
+        ctx.event("group_flat_fields_checked")
+        try:
+            v = getattr(g, name)
+            if v is not None:
+                observe._check_value(name, v, t, g.records[0], "flat view (%s)" % where)
+            if name in as_dict and observe.oval(as_dict[name]) != observe.oval(v):
+                raise observe.Untyped("_asdict()[%r] differs from the attribute" % name)
+        except observe.Untyped as e:
+            ok = False
+            ctx.violation(KEY_GROUP_FLAT, "a grouped record shows a value that is not of the type its flat descriptor declares (%s)" % where,
+                          detail=dict(info, field=name, declared=getattr(t, "__name__", str(t)), error=str(e)))
+        except Exception as e:  # noqa: BLE001
+            ok = False
+            ctx.violation(KEY_GROUP_FLAT, "a flat field of a grouped record cannot be read (%s)" % where, detail=dict(info, field=name, exception=repr(e)[:300]))
+    return ok
+
+
+def run_groupoverlap(ctx, case):
+    """2-4 member records share a field name with different types (plus the reserved names, which every member has).  After
+    construction, assignment through the group, _replace and a stream / JSON round trip every flat field's value must be of the type
+    the flat descriptor declares."""
+    from flow.record import GroupedRecord, JsonRecordPacker, RecordDescriptor, RecordPacker
+
+    rng = random.Random(case["s"])
+    t1, t2, pos = case["t1"], case["t2"], case["pos"]
+    tag = gen.rand_ident(rng)
+
+    def member(i, shared_type, extra_shared=None):
+        own = [(rng.choice(OVERLAP_FAMILIES), "m%d_%s" % (i, x)) for x in ("a", "b")]
+        fields = list(own)
+        fields.insert(min(pos, len(fields)), (shared_type, "shared"))
+        if extra_shared:
+            fields.append(extra_shared)
+        d = RecordDescriptor("c05/overlap_%s_%d" % (tag, i), fields)
+        return d.recordType(*[ordinary_value(t, rng) for t, _ in fields], _generated=BY_STAMP, _source="m%d" % i)
+
+    nmem = rng.randint(2, 4)
+    types = [t1, t2] + [rng.choice(OVERLAP_FAMILIES) for _ in range(nmem - 2)]
+    second_shared = ("string", "also") if rng.random() < 0.5 else None
+    members = []
+    try:
+        for i, st in enumerate(types):
+            es = None
+            if second_shared and i in (0, nmem - 1):
+                es = (second_shared[0] if i == 0 else "varint", "also")
+            members.append(member(i, st, es))
+        g = GroupedRecord("c05/overlapgroup_" + tag, members)
+    except Exception as e:  # noqa: BLE001
+        ctx.violation(None, "a grouped record of members with overlapping field names could not be built", detail={"case": case, "exception": repr(e)[:300]})
+        return
+    info = {"case": case, "members": [[m._desc.name, list(m._desc.get_field_tuples())] for m in members], "flat": list(g._desc.get_field_tuples())}
+    ctx.ev()
+    ctx.cell("groupoverlap", t1, t2)
+    ctx.nontrivial("groupoverlap", t1, t2, pos, case["s"])
+    flat_view_typed(ctx, g, "after construction", info)
+    observe.assert_typed(g, "grouped members")
+    # assignment through the group: a value of the first member's type (whatever the outcome, the view must stay typed)
+    for name, t in (("shared", t1), ("also", "string")):
+        if name == "also" and not second_shared:
+            continue
+        try:
+            setattr(g, name, ordinary_value(t, rng))
+            ctx.event("groupoverlap_assign_accepted")
+        except Exception:  # noqa: BLE001
+            ctx.event("groupoverlap_assign_raised")
+        flat_view_typed(ctx, g, "after assigning %r through the group" % name, info)
+    try:
+        g2 = g._replace(shared=ordinary_value(t1, rng))
+        ctx.event("groupoverlap_replace_accepted")
+        flat_view_typed(ctx, g2, "after _replace", dict(info, flat=list(g2._desc.get_field_tuples())))
+    except Exception:  # noqa: BLE001
+        ctx.event("groupoverlap_replace_raised")
+    # round trips
+    try:
+        p = RecordPacker()
+        back = p.unpack(p.pack(g))
+        ctx.event("groupoverlap_stream_roundtrip")
+        flat_view_typed(ctx, back, "after a stream round trip", dict(info, flat=list(back._desc.get_field_tuples())))
+        observe.assert_typed(back, "decoded grouped members")
+    except Exception as e:  # noqa: BLE001
+        ctx.violation(KEY_GROUP_FLAT, "a grouped record with overlapping member fields does not survive a stream round trip", detail=dict(info, exception=repr(e)[:300]))
+    if not any(t.startswith("net.ipv4.") for m in members for t, _ in m._desc.get_field_tuples()):
+        try:
+            j = JsonRecordPacker()
+            text = j.pack(g)
+            ctx.event("groupoverlap_json_packed")
+        except Exception as e:  # noqa: BLE001
+            ctx.violation(KEY_GROUP_FLAT, "a grouped record with overlapping member fields cannot be serialised to JSON", detail=dict(info, exception=repr(e)[:300]))
+            text = None
+        if text is not None:
+            try:
+                jb = j.unpack(text)
+                observe.assert_typed(jb, "JSON round trip of the flat view")
+                ctx.event("groupoverlap_json_roundtrip")
+            except observe.Untyped as e:
+                ctx.violation(KEY_GROUP_FLAT, "the JSON round trip of a grouped record yields an untyped slot", detail=dict(info, error=str(e)))
+            except Exception as e:  # noqa: BLE001 - decoding JSON is C14's subject (command / bytes-in-dynamic ... are not readable): counted only
+                ctx.event("groupoverlap_json_unpack_raised:" + type(e).__name__)
+    ctx.sample({"case": case, "flat": info["flat"]}, kind="groupoverlap")
+
+
+def run_pairs(ctx, case):
+    """thorough tier: every ordered pair (c1, c2) of candidates of one type's pool as a history of two operations (op1 with c1, then
+    op2 with c2) - exhaustive for histories of length two over the pool, for four operation pairs."""
+    rng = random.Random(case["s"])
+    t = case["t"]
+    op1, op2 = case["ops"]
+    h = Hist(ctx, case, rng, t, nfields=rng.choice([1, 2]))
+    h.start()
+    pool = list(h.pool(t)) + [cands.NONE]
+    big = [c for c in pool if isinstance(c.value, (bytes, str, list)) and len(c.value) > 5000]
+    pool = [c for c in pool if c not in big]  # very large values are covered by the sweeps; here they only cost time
+    n = 0
+    for c1 in pool:
+        for c2 in pool:
+            h.do(op1, h.focus, c1)
+            h.do(op2, h.focus, c2)
+            n += 1
+        h.end()
+    ctx.event("pairs_enumerated", n)
+    ctx.cell("pairs", t, op1 + ">" + op2)
+    ctx.note("pairs_exhaustive_over_pool", True)
+    ctx.sample({"case": case, "pool": len(pool), "pairs": n}, kind="pairs:" + op1 + ">" + op2)
+
+
 def run_hist(ctx, case):
     rng = random.Random(case["s"])
     t = case["t"]
-    h = Hist(ctx, case, rng, t)
+    deep = bool(case.get("deep"))
+    h = Hist(ctx, case, rng, t, nfields=rng.choice([1, 2, 3, 4, 5, 6]) if deep else None)
     h.start()
-    nops = rng.randint(1, 8)
+    nops = rng.choice([rng.randint(1, 8), rng.randint(9, 24), rng.randint(25, 40)]) if deep else rng.randint(1, 8)
+    ctx.event("history_length:%s" % ("1-8" if nops <= 8 else ("9-24" if nops <= 24 else "25-40")))
     for _ in range(nops):
         fname = h.focus if rng.random() < 0.7 else rng.choice([n for _, n in h.fields])
         ftype = h.type_of(fname)
@@ -1441,6 +1633,14 @@ def run_inputtypes(ctx, case):
             value = [rng.choice(valid).fresh(), value] if valid and rng.random() < 0.5 else [value]
             conv = ("list", [None] * (len(value) - 1) + [conv]) if conv else None
         c = cands.Cand(value, exp, "input:" + label, conv)
+        if case.get("allops") and mutate is None:
+            # thorough: the same input through every operation kind (inputs with a mutator are one-shot: the buffer is changed afterwards)
+            for op in ops[:-1]:
+                okx, _ = h.do(op, h.focus, c)
+                ctx.cell(t, "input:" + label, op)
+                if okx:
+                    ctx.event("inputtypes_accepted")
+                    h.end()
         ok, _ = h.do(rng.choice(ops), h.focus, c)
         ctx.cell(t, "input:" + label, "accepted" if ok else "raised")
         if not ok:
@@ -1502,7 +1702,18 @@ def run_cold(ctx, case):
     rng = random.Random(case["s"])
     t = case["t"]
     order = ["json", "stream"] + [w for w, _ in child_c05.WRITERS]
-    rng.shuffle(order)
+    if "rot" in case:
+        r = case["rot"] % (len(order) + 1)
+        if r < len(order):
+            first = order[r]
+            rest = [x for x in order if x != first]
+            rng.shuffle(rest)
+            order = [first] + rest  # this serialiser is the first thing the fresh interpreter does
+        else:
+            rng.shuffle(order)
+    else:
+        rng.shuffle(order)
+    ctx.cell("cold-first-step", order[0])
     n = ctx.evaluations
     dirs = []
     for who in ("warm", "cold"):
@@ -1582,7 +1793,7 @@ def run_locale(ctx, case):
     info = out["info"]
     repo = os.path.realpath(os.environ.get("VERIF_REPO", "/repo"))
     ctx.require(os.path.realpath(info["flow_record_file"]).startswith(repo + os.sep), "C05 worker imported flow.record from %s, not from %s" % (info["flow_record_file"], repo))
-    if overrides:
+    if overrides and case["env"] == 0:
         ctx.require(all(info["env"].get(k) == v for k, v in overrides.items()), "environment was not propagated to a C05 locale worker: %r" % (info["env"],))
         ctx.require(info["fs_encoding"].lower().replace("-", "") not in ("utf8",) and not info["utf8_mode"],
                     "the C-locale worker still runs with a UTF-8 text configuration (%r): locale dependence not observable" % (info,))
@@ -1774,7 +1985,7 @@ def run_alias(ctx, case):
         "from_record_of_throwaway": lambda: desc.init_from_record(RecordDescriptor("c05/alias_src", [("string", fo)])(**{fo: "w"})),
         "equal_descriptor": lambda: RecordDescriptor(name, list(fields))(),
     }
-    chosen = rng.sample(sorted(routes), rng.randint(2, 4))
+    chosen = rng.sample(sorted(routes), rng.randint(2, 6 if case.get("deep") else 4))
     recs = []
     for r in chosen:
         try:
@@ -1803,7 +2014,7 @@ def run_alias(ctx, case):
                     ctx.violation("default-object-shared-between-records", "two records hold the very same default object in an unset field",
                                   detail=dict(info, field=fname, records=[objs[i][0], objs[j][0]]))
 
-    nmut = rng.randint(1, 3)
+    nmut = rng.randint(1, 10 if case.get("deep") else 3)
     for _ in range(nmut):
         mi = rng.randrange(len(recs))
         mroute, m = recs[mi]
@@ -1890,7 +2101,11 @@ def run_alias(ctx, case):
 
 def execute(ctx, case):
     k = case["k"]
-    if k == "cold":
+    if k == "groupoverlap":
+        run_groupoverlap(ctx, case)
+    elif k == "pairs":
+        run_pairs(ctx, case)
+    elif k == "cold":
         run_cold(ctx, case)
     elif k == "inputtypes":
         run_inputtypes(ctx, case)
@@ -1935,6 +2150,9 @@ def finish(ctx):
     ctx.require(ev.get("alias_identity_checked", 0) > 0, "the default-object identity check never ran")
     ctx.require(ev.get("history_consistency_checked", 0) > 0, "the history-independence monitor never ran")
     ctx.require(ev.get("json_pack_checked", 0) > 0, "the JSON serialisation check never ran")
+    if any(c.startswith("groupoverlap/") for c in ctx.cells):
+        ctx.require(ev.get("group_flat_fields_checked", 0) > 0, "the grouped flat-view monitor never ran")
+    ctx.require(any("/lookalike/" in c for c in ctx.cells), "no Unicode look-alike candidate was offered")
     if any(c.startswith("cold/") for c in ctx.cells):
         ctx.require(ev.get("cold_steps_ok_in_warm", 0) > 0, "the cold-process family compared no successfully serialised step")
     if any("/input:" in c for c in ctx.cells):
